@@ -240,7 +240,7 @@ func (t *htmlTemplate) processTagStart(node *Node, tokenBuf *strings.Builder,
 					return data, err
 				}
 				result = html.EscapeString(result)
-				result = fmt.Sprintf(" %v=%q", cmd, result)
+				result = fmt.Sprintf(" %v=\"%v\"", cmd, result) // 已做 HTML 转义(含引号) 不能再用 %q 转义
 				writeToBuf(opt, tagBuf, result)
 			}
 		} else { // 普通属性
